@@ -254,6 +254,15 @@ def rules(ctx: Ctx) -> None:
                 ok = False
                 msg += f"; the owner is printed by name and {owners_bad or ['parent']} does not print injectively / unresolved columns print without owner"
         ctx.ob("R18.2", f"id-injective:{name}", ok, i.cls.loc(), msg + (f" - not determined: {missing}" if missing else ""))
+        if name in ("Table", "Path", "Column"):
+            # the converse, for the classes whose objects are exported nodes: objects that compare equal are one node in the graph but each edge keeps
+            # the object it was added with, so they must also print the same - identity compares the printed name itself, or exactly the plain
+            # fields it prints (a coarser projection such as a stripped / lower-cased field makes an edge end print differently from its node)
+            plain = {p_[5:] for p_ in i.eq_projs if p_.startswith("self.") and p_[5:].isidentifier() and prog.find_method(i.cls, p_[5:]) is None}
+            same = "str(self)" in i.eq_projs or (i.str_fn is not None and i.str_fields <= plain)
+            ctx.ob("R18.2", f"equal-objects-print-equally:{name}", same, i.cls.loc(),
+                   f"{name}.__eq__ compares {i.eq_projs}; the printed name reads fields {sorted(i.str_fields)}: "
+                   + ("equal objects print the same" if same else "two objects can compare equal and print differently - one node id, but edge ends / parent references under the other spelling"))
 
     # ---- R18.3 level selection and views ----------------------------------------------------
     H = prog.try_cls("core.holders.SQLLineageHolder")
